@@ -89,19 +89,21 @@ def _empty(draw):
     return {"kind": "empty", "terms": terms, "cls": cls}
 
 
-@st.composite
-def _empty_hard(draw):
-    """a mined, satisfiable, badly scaled system on which the solver's first answer is not optimal: non-empty (exact witness);
-    with one row turned against the witness by a clear margin it is empty"""
-    terms, w, row = draw(gens.lp_hard_s())
-    cls = "lp-hard-feasible"
-    if draw(st.integers(0, 2)) == 0:
-        k = draw(st.integers(0, len(terms) - 1))
-        t = terms[k]
-        terms = terms + [[{n: -v for n, v in t[0].items()}, float(-t[1] - max(1.0, abs(t[1])) * draw(st.sampled_from([0.01, 0.5])) - 1.0)]]
-        terms = list(draw(st.permutations(terms)))
-        cls = "lp-hard-infeasible"
-    return {"kind": "empty", "terms": terms, "cls": cls}
+def lp_hard_cases(entry):
+    """emptiness queries derived from one mined solver-hard system under each of the 8 sign patterns: the system itself (non-empty,
+    exact witness) and the system with one row turned against the witness by a clear margin (empty)"""
+    for signs in gens.LP_SIGNS:
+        terms, w = gens.lp_hard_system(entry, signs)
+        yield {"kind": "empty", "terms": terms, "cls": "lp-hard-feasible", "src": entry.get("file")}
+        for k, t in enumerate(terms):
+            for f in (0.01, 0.5):
+                neg = [{n: -v for n, v in t[0].items()}, float(-t[1] - max(1.0, abs(t[1])) * f - 1.0)]
+                yield {"kind": "empty", "terms": terms[:k + 1] + [neg] + terms[k + 1:], "cls": "lp-hard-infeasible", "src": entry.get("file")}
+
+
+def enumerate_cases(tier):
+    for e in gens.lp_hard_corpus():
+        yield from lp_hard_cases(e)
 
 
 @st.composite
@@ -127,7 +129,7 @@ def _consistency(draw):
 
 def strategy(tier):
     return st.one_of(_member(), _member(), _member(), _member(), _member(), _member(), _empty(), _empty(), _empty(), _empty(),
-                     _consistency(), _consistency(), _empty_hard())
+                     _consistency(), _consistency())
 
 
 def _beh(b):
